@@ -293,12 +293,19 @@ class Runner:
         if pf is not None and pf.name == "oseq" and was_att:
             return  # the static type info of an optional sequence lists no node types: the swap is rejected (C19)
         exclude = {id(a) for a in w.ancestors_of(n)} | {id(x) for x in E.subtree(n)}
-        if not was_att and not w.free_id(n.id):
-            return  # stale receiver whose id is in use again: the swap would be rejected (C19)
         ch = w.pick_children([cs], exclude, want)
         if not ch:
             return
         new = ch[0]
+        if not was_att and not w.free_id(n.id):
+            # stale receiver whose id is in use again (its successor holds it): the library refuses; whatever
+            # it does, the structural invariants checked after every step decide
+            try:
+                n.replace_with(new)
+                self.lab.tag("replace_with-on-stale-receiver-carried-out")
+            except E.documented_errors():
+                self.lab.tag("replace_with-on-stale-receiver-refused")
+            return
         if not was_att and not new.detached:
             pass
         old_id, new_former_id = n.id, new.id
